@@ -39,13 +39,24 @@ def shards(tier, seed):
 def session(draw):
     ncall = draw(st.integers(2, 4))
     callers = [{'key': draw(st.sampled_from(KEYS)), 'delay': draw(st.sampled_from([0, 0, 0, 0.5, 3.0]))} for _ in range(ncall)]
+    lossy = draw(st.integers(0, 5)) == 0
+    if lossy:
+        # requests lost on the way (never answered): callers time out, requests with the same key issued before and after the
+        # time-out - change requests carry the caller's number, so the peer knows whose request it answers
+        callers = [{'key': ['change', 'm:target'] if draw(st.integers(0, 3)) else draw(st.sampled_from(KEYS)),
+                    'delay': draw(st.sampled_from([0, 0.5, 3.0, 10.2, 10.5, 11.0, 12.5]))} for _ in range(ncall)]
     plan = []
     for _ in range(draw(st.integers(0, 8))):
-        kind = draw(st.sampled_from(['reply', 'reply', 'reply', 'error', 'update', 'stray', 'sleep', 'sleep']))
+        kind = draw(st.sampled_from(['reply', 'reply', 'reply', 'error', 'update', 'stray', 'sleep', 'sleep'] + (['ignore'] * 3 if lossy else [])))
         item = {'do': kind, 'k': draw(st.integers(0, 3))}
         if kind == 'sleep':
             item['dt'] = draw(st.sampled_from([0.1, 1.5, 6.0, 12.0]))
         plan.append(item)
+    if lossy and draw(st.booleans()):
+        # a request is lost at once, the peer stays quiet past the first time-outs, then answers what it has
+        plan = [{'do': 'ignore', 'k': draw(st.integers(0, 3))}] + \
+               [{'do': 'sleep', 'k': 0, 'dt': dt} for dt in draw(st.sampled_from([[12.0], [12.0, 1.5], [12.0, 1.5, 1.5], [6.0, 6.0, 1.5, 1.5], [12.0, 6.0]]))] + \
+               [{'do': draw(st.sampled_from(['reply', 'reply', 'error', 'sleep'])), 'k': draw(st.integers(0, 3)), 'dt': 1.5} for _ in range(draw(st.integers(1, 4)))]
     drop = draw(st.sampled_from([None, None, None, 'close', 'reset', 'silent']))
     if drop:
         plan.insert(draw(st.integers(0, len(plan))), {'do': 'drop', 'how': drop})
@@ -101,7 +112,8 @@ class Peer:
             self.push(f'pong {ident} [null, {{"t": 1}}]')
         else:
             w.nonce += 1
-            req = {'nonce': w.nonce, 'action': action, 'ident': ident, 'peer': self, 'answered': None, 't': dsched.v_time()}
+            req = {'nonce': w.nonce, 'action': action, 'ident': ident, 'peer': self, 'answered': None, 't': dsched.v_time(), 'ta': None,
+                   'caller': int(parts[2]) - 100 if action == 'change' and parts[2].isdigit() else None}
             w.requests.append(req)
             if self.index > 0 or w.plan_done:
                 w.answer(req)      # sessions after a reconnect, and everything after the plan, are answered at once
@@ -136,6 +148,7 @@ class World:
         if req['answered'] or peer.closed or peer.silent:
             return
         n = req['nonce']
+        req['ta'] = dsched.v_time()
         if error:
             peer.push(f'error_{req["action"]} {req["ident"]} ["HardwareError", "nonce {n}", {{}}]')
             req['answered'] = 'error'
@@ -166,6 +179,15 @@ class World:
                 dsched.v_sleep(item['dt'])
             elif do == 'update':
                 peer.push('update m:_p [7.5, {"t": 3}]')
+            elif do == 'ignore':
+                # the request is lost: never answered (only requests whose caller is known, so that its time-out can be excused)
+                if not self.outstanding:
+                    s.block(('req', self), 2.0)
+                cands = [r for r in self.outstanding if r['caller'] is not None]
+                if cands:
+                    req = cands[item['k'] % len(cands)]
+                    req['answered'] = 'ignored'
+                    self.outstanding.remove(req)
             elif do == 'stray':
                 peer.push('reply m:nix [0, {}]')
                 peer.push('nonsense' if item['k'] % 2 else 'error_foo nix ["InternalError", "unsolicited", {}]')
@@ -222,7 +244,7 @@ def run_session(case, preempt=None):
                 t0 = dsched.v_time()
                 try:
                     action, ident = c['key']
-                    r = client.request(action, ident, 1 if action == 'change' else None)
+                    r = client.request(action, ident, 100 + i if action == 'change' else None)
                     out['results'][i] = ('reply', r[0], r[1], r[2], t0, dsched.v_time())
                 except Exception as e:   # noqa
                     out['results'][i] = ('exc', type(e).__name__, str(e), None, t0, dsched.v_time())
@@ -349,6 +371,22 @@ def check(ctx, case, preempt=None):
                 ctx.label('unknown-request-took-other-reply')
                 took_stray = True
             elif a == 'TimeoutError':
+                lossy = any(it['do'] == 'ignore' for it in case['plan'])
+                mine = [r for r in world.requests if r.get('caller') == i]
+                if mine and mine[0]['answered'] in ('reply', 'error') and mine[0]['ta'] is not None and not disturbed \
+                        and mine[0]['ta'] < t0 + 10.0 - 0.5 and mine[0]['t'] >= t0:
+                    # the peer answered THIS caller's request (change requests carry the caller's number) well within its time-out
+                    ctx.finding('reply-lost:caller-timed-out-although-answered-in-time', sub,
+                                f'caller {i} {c["key"]} asked at +0, its request reached the peer at +{mine[0]["t"] - t0:.2f} and was answered at '
+                                f'+{mine[0]["ta"] - t0:.2f}; requests {[(r["nonce"], r["action"], r["caller"], r["answered"]) for r in world.requests]!r}')
+                    return
+                if lossy:
+                    # a lost request, or one parked behind a lost request with the same key, legitimately ends in a time-out
+                    ctx.label('timeout-after-lost-request')
+                    if elapsed > 13.0 + 1.5:
+                        ctx.finding('caller-blocked-too-long', sub, f'caller {i}: {elapsed:.1f}')
+                        return
+                    continue
                 # only if the peer never answered a request that was transmitted (silent peer), never with a responsive peer
                 if world.dropped != 'silent' and not disturbed and not slow_peer:
                     ctx.finding('timeout-although-peer-responsive', sub, f'caller {i} {c["key"]}: {b}; requests seen by the peer: {[(r["nonce"], r["action"], r["ident"], r["answered"]) for r in world.requests]!r}')
@@ -383,9 +421,9 @@ def check(ctx, case, preempt=None):
                 return
     ctx.ok('callers-consistent')
     # every answer the peer gave to a transmitted request reached somebody (unless the connection was disturbed)
-    if not disturbed and not slow_peer:
+    if not disturbed and not slow_peer and not any(it['do'] == 'ignore' for it in case['plan']):
         for r in world.requests:
-            if r['answered'] and r['nonce'] not in seen_nonces and not (took_stray and r['action'] not in REPLY):
+            if r['answered'] in ('reply', 'error') and r['nonce'] not in seen_nonces and not (took_stray and r['action'] not in REPLY):
                 ctx.finding('answer-lost', sub, f'peer answered {r["action"]} {r["ident"]} (nonce {r["nonce"]}) but no caller received it; results {[v[:3] for v in results.values()]!r}')
                 return
     sends = [t for t, _ in out['net'].connections[0].sent] if out['net'].connections else []
@@ -405,7 +443,7 @@ def run_shard(ctx, shard):
 def run_case(ctx, case):
     try:
         ok = len(case['callers']) >= 1 and all(c['key'] in KEYS for c in case['callers']) and \
-            all(i['do'] in ('reply', 'error', 'update', 'stray', 'sleep', 'drop') for i in case['plan'])
+            all(i['do'] in ('reply', 'error', 'update', 'stray', 'sleep', 'drop', 'ignore') for i in case['plan'])
     except (KeyError, TypeError):
         ok = False
     if ok:
